@@ -17,6 +17,13 @@ def sh(cmd, cwd=None, env=None, timeout=3000):
 
 
 meta = dict(id=sid, property=target, confirmed={}, checks={})
+# the agent's patch.diff is the source of truth (worktrees share one git stash, so the working tree may have been disturbed)
+pd = os.path.join(d, 'patch.diff')
+if os.path.exists(pd) and open(pd).read().strip():
+    sh('git checkout -- parso', cwd=d)
+    rc, o = sh('git apply patch.diff', cwd=d)
+    if rc != 0:
+        print('agent patch does not apply to its own worktree:', o); sys.exit(1)
 rc, diff = sh('git diff -- parso', cwd=d)
 if not diff.strip():
     print('no diff in', d); sys.exit(1)
@@ -28,9 +35,9 @@ meta['confirmed']['suite_with_change'] = o.strip().split('\n')[-1]
 rc1, o1 = sh('/venv/bin/python demo.py', cwd=d, env=env)
 meta['confirmed']['demo_with_change_exit'] = rc1
 meta['confirmed']['demo_with_change_output'] = o1[-600:]
-sh('git stash push -- parso', cwd=d)
+sh('git apply -R %s' % os.path.join(out, 'patch.diff'), cwd=d)     # never git stash: the stash is shared by all worktrees
 rc2, o2 = sh('/venv/bin/python demo.py', cwd=d, env=env)
-sh('git stash pop', cwd=d)
+sh('git apply %s' % os.path.join(out, 'patch.diff'), cwd=d)
 meta['confirmed']['demo_without_change_exit'] = rc2
 ok = '1987 passed' in meta['confirmed']['suite_with_change'] and rc1 != 0 and rc2 == 0
 meta['confirmed']['ok'] = ok
